@@ -7,6 +7,7 @@ import (
 	"strconv"
 	"strings"
 	"sync"
+	"sync/atomic"
 	"testing/synctest"
 	"time"
 
@@ -25,7 +26,8 @@ type scen struct {
 	Initial  map[string]cInit // start-up cache entries
 	Expiry   time.Duration
 	ClockAdd time.Duration // store clock = bubble clock + ClockAdd (to make cache stamps old)
-	Threads  map[string][]string
+	// (the action "clockadd:<duration>" moves the store clock forward at a scheduling point of its own)
+	Threads map[string][]string
 	// Events: srv-put:<name> (new version, activated), tick, cancel:<thread>
 	Events      []string
 	Ticker      bool          // harness ticker + poller task
@@ -58,6 +60,7 @@ type readRec struct {
 	val    string
 	begin  int
 	end    int
+	clock  int64 // the store clock (seconds) when the read began
 }
 
 type refreshRec struct {
@@ -105,6 +108,7 @@ type run struct {
 	// goroutine started by an abandoning caller is alive any more.
 	abandonFloor map[string]uint32
 	abandoners   []string
+	clockOff     atomic.Int64 // nanoseconds added to the store clock by clockadd actions
 	cancels      map[string]context.CancelFunc
 	viol         []violation
 	secretNil    map[string]bool
@@ -249,7 +253,7 @@ func (sc *scen) harness(props map[string]bool, out *[]violation) func() *sched.H
 				}
 				cfg := setec.StoreConfig{Client: r.svc, Secrets: append([]string(nil), sc.Declared...), AllowLookup: !sc.NoLookup, Cache: r.cache,
 					PollInterval: -1, ExpiryAge: sc.Expiry, Logf: func(string, ...any) {},
-					TimeNow: func() time.Time { return time.Now().Add(sc.ClockAdd) }}
+					TimeNow: func() time.Time { return r.storeNow() }}
 				if sc.Ticker {
 					r.tick = &hTicker{ch: make(chan time.Time)} // unbuffered: a tick is delivered only to a waiting poller, so select never sees two ready cases
 					cfg.PollTicker = r.tick
@@ -365,6 +369,7 @@ func (sc *scen) harness(props map[string]bool, out *[]violation) func() *sched.H
 				r.cache.Seams = false
 				if r.st != nil && x.Stuck == "" && x.Violation == nil {
 					r.checkCacheInSync("at quiescence after the scenario")
+					r.checkLastAccess("at quiescence after the scenario")
 				}
 				if r.st != nil && !r.closed && x.Stuck == "" && x.Violation == nil {
 					// final convergence: one more poll with a healthy service
@@ -455,10 +460,11 @@ func (r *run) act(tn string, ctx context.Context, a string) {
 			return
 		}
 		b := r.tickClk()
+		c := r.storeNow().Unix()
 		v := string(h.Get())
 		e := r.tickClk()
 		r.mu.Lock()
-		r.reads = append(r.reads, readRec{tn, name, v, b, e})
+		r.reads = append(r.reads, readRec{tn, name, v, b, e, c})
 		r.mu.Unlock()
 	case "refresh":
 		r.mu.Lock()
@@ -577,11 +583,39 @@ func (r *run) act(tn string, ctx context.Context, a string) {
 	case "sleep":
 		d, _ := time.ParseDuration(name)
 		time.Sleep(d)
+	case "clockadd":
+		d, _ := time.ParseDuration(name)
+		r.x.Seam("env.clock+" + name)
+		r.clockOff.Add(int64(d))
 	case "close":
 		r.st.Close()
 		r.mu.Lock()
 		r.closed = true
 		r.mu.Unlock()
+	}
+}
+
+// storeNow is the store's clock: the bubble's clock, shifted by the scenario and by clockadd actions.
+func (r *run) storeNow() time.Time {
+	return time.Now().Add(r.sc.ClockAdd).Add(time.Duration(r.clockOff.Load()))
+}
+
+// checkLastAccess: each read refreshes the last-access time, so once all reads are over the stamp of
+// a name is at least the clock value at which its latest read began (C19).
+func (r *run) checkLastAccess(when string) {
+	latest := map[string]int64{}
+	r.mu.Lock()
+	for _, rd := range r.reads {
+		if rd.clock > latest[rd.name] {
+			latest[rd.name] = rd.clock
+		}
+	}
+	r.mu.Unlock()
+	d := r.st.VerifDump()
+	for n, c := range latest {
+		if g, ok := d[n]; ok && !g.Nil && g.LastAccess < c {
+			r.fail("C19", "last-access-went-back", "%s: %q was read when the clock stood at %d, but its last-access stamp is %d (the expiry rule would drop it early)", when, n, c, g.LastAccess)
+		}
 	}
 }
 
